@@ -71,7 +71,7 @@ CLAIMS = {
              "reopen themselves before every seek and every readline when os.getpid() differs from the pid they were opened in: for EVERY "
              "file content, offset index, tree of forks (children of children) and interleaving of the processes' seeks and reads, every "
              "read returns what readline returns at the offset that very process sought (the single-process result); processes that have "
-             "used the file since their fork never share a description; in every reachable state a pending read is accepted and appends exactly one record (own pid, item, line at that offset) and a seek to an indexed item is always accepted; the same model without reopening is refuted by a machine-checked "
+             "used the file since their fork never share a description; in every reachable state a pending read is accepted and appends exactly one record (own pid, item, line at that offset) and a seek to an indexed item is always accepted; with the index the classes build (the C11 model) every read of item i is the i-th line of the file; the same model without reopening is refuted by a machine-checked "
              "witness. Tied to /repo with real forked processes in lock-step (accesses split between seek and readline) over the buffered, "
              "memory-mapped and map-access classes, comparing every read and the partition of processes by open file description (lseek probe).",
              note=("Modelled, not verified: POSIX fork/open/lseek semantics as stated; CPython's buffered readers are summarised as 'seek = lseek, readline "
